@@ -27,6 +27,8 @@ class UniformGenerator(AnalysisGenerator):
         The number of samples in the DOE.
     _seed : int or None
         Random seed.
+    _rng : numpy.random.RandomState or module
+        Source of the random draws: a private generator when seeded, numpy.random otherwise.
     _sizes : dict
         A dictionary mapping variable names to their sizes, determined from the 'lower' and 'upper'
         bounds in the var_dict.
@@ -38,6 +40,7 @@ class UniformGenerator(AnalysisGenerator):
         """
         self._num_samples = num_samples
         self._seed = seed
+        self._rng = np.random
         self._sizes = sizes = {}
 
         for name, meta in var_dict.items():
@@ -54,8 +57,9 @@ class UniformGenerator(AnalysisGenerator):
         ValueError
             Raised if the length of var_dict for each case are not all the same size.
         """
-        if self._seed is not None:
-            np.random.seed(self._seed)
+        # a seeded generator draws from its own stream (the same one np.random.seed(seed) would give),
+        # so that its cases do not depend on what else uses the process-wide generator before it is iterated
+        self._rng = np.random.RandomState(self._seed) if self._seed is not None else np.random
 
         self._iter = iter(range(self._num_samples))
 
@@ -87,7 +91,7 @@ class UniformGenerator(AnalysisGenerator):
         d = {}
         for name, meta in self._var_dict.items():
             d[name] = {
-                'val': np.random.uniform(meta['lower'], meta['upper'], sizes[name]),
+                'val': self._rng.uniform(meta['lower'], meta['upper'], sizes[name]),
                 'units': meta.get('units', None),
                 'indices': meta.get('indices', None)
             }
